@@ -5,6 +5,7 @@ import (
 	"errors"
 	"net"
 	"net/http"
+	"net/textproto"
 	"strings"
 
 	"github.com/fabiolb/fabio/config"
@@ -131,7 +132,53 @@ func addHeaders(r *http.Request, cfg config.Proxy, stripPath string) error {
 		}
 	}
 
+	// a client must not be able to have the reverse proxy drop the headers
+	// set above by naming them as hop-by-hop headers in Connection
+	unlistManagedHeaders(r.Header, cfg)
+
 	return nil
+}
+
+// unlistManagedHeaders removes the names of the headers addHeaders manages
+// from the Connection header.
+func unlistManagedHeaders(h http.Header, cfg config.Proxy) {
+	managed := func(name string) bool {
+		switch name = textproto.CanonicalMIMEHeaderKey(textproto.TrimString(name)); name {
+		case "":
+			return false
+		case "X-Real-Ip", "X-Forwarded-Proto", "X-Forwarded-Port", "X-Forwarded-Host", "X-Forwarded-Prefix", "Forwarded":
+			return true
+		default:
+			return name == textproto.CanonicalMIMEHeaderKey(cfg.ClientIPHeader) ||
+				name == textproto.CanonicalMIMEHeaderKey(cfg.TLSHeader)
+		}
+	}
+	listed := false
+	for _, v := range h["Connection"] {
+		for _, tok := range strings.Split(v, ",") {
+			listed = listed || managed(tok)
+		}
+	}
+	if !listed {
+		return
+	}
+	var vals []string
+	for _, v := range h["Connection"] {
+		var toks []string
+		for _, tok := range strings.Split(v, ",") {
+			if !managed(tok) {
+				toks = append(toks, tok)
+			}
+		}
+		if len(toks) > 0 {
+			vals = append(vals, strings.Join(toks, ","))
+		}
+	}
+	if len(vals) == 0 {
+		h.Del("Connection")
+		return
+	}
+	h["Connection"] = vals
 }
 
 var tlsver = map[uint16]string{
